@@ -75,6 +75,21 @@ class RenameMixin{V}:
                           + ("" if tag is None else "@" + str(tag)))
 
 
+class NestRecMixin{V}:
+    """a handler that feeds the result of one recursive call into another"""
+    def map_common_subexpression(self, expr{sig}):
+        return self.rec(self.rec(expr.child{sig}){sig})
+
+
+class LitMixin{V}:
+    """handlers for two user literal node classes that compare equal across the two classes"""
+    def map_int_lit(self, expr{sig}):
+        return expr
+
+    def map_float_lit(self, expr{sig}):
+        return expr
+
+
 class WeightMixin{V}:
     def combine(self, values):
         return sum(values)
@@ -135,7 +150,7 @@ from dst.c05 import walk_log as _walk_log
 
 # family -> (mixin, cached base, plain base)
 _FAM_BASES = {
-    "ident": ("RenameMixin", "CachedIdentityMapper", "IdentityMapper"),
+    "ident": ("LitMixin{v}, RenameMixin", "CachedIdentityMapper", "IdentityMapper"),
     "combine": ("WeightMixin", "CachedCombineMapper", "CombineMapper"),
     "collect": ("PrefixMixin", "CachedCollector", "Collector"),
     "walk": ("VisitMixin", "CachedWalkMapper", "WalkMapper"),
@@ -150,23 +165,41 @@ def module_source():
             out.append(_KEYMIXIN.format(V=v, **d))
     for fam, (mx, cb, pb) in _FAM_BASES.items():
         for v, d in _VARIANTS.items():
-            bases = f"{mx}{v}, " + (f"KeyMixin{v}, " if d["key"] else "") + cb
+            mxv = mx.replace("{v}", v)
+            bases = f"{mxv}{v}, " + (f"KeyMixin{v}, " if d["key"] else "") + cb
             out.append(f"\nclass C_{fam}_{v}({bases}):\n    pass\n")
-        out.append(f"\nclass P_{fam}({mx}0, {pb}):\n    pass\n")
+        mx0 = mx.replace("{v}", "0")
+        out.append(f"\nclass P_{fam}({mx0}0, {pb}):\n    pass\n")
         # non-memoizing classes that get rewritten too
         for v in _VARIANTS:
-            out.append(f"\nclass PO_{fam}_{v}({mx}{v}, {pb}):\n    pass\n")
+            mxv = mx.replace("{v}", v)
+            out.append(f"\nclass PO_{fam}_{v}({mxv}{v}, {pb}):\n    pass\n")
     # families without extra arguments
     out.append('''
-class C_subst_0(CachedSubstitutionMapper):
+class C_subst_0(NestRecMixin0, CachedSubstitutionMapper):
     pass
 
 
-class C_subst_AK(KeyMixinAK, CachedSubstitutionMapper):
+class C_subst_AK(NestRecMixinAK, KeyMixinAK, CachedSubstitutionMapper):
     pass
 
 
-class P_subst(SubstitutionMapper):
+class P_subst(NestRecMixin0, SubstitutionMapper):
+    pass
+
+
+class CallHookMixin:
+    """__call__ is the documented place for a more convenient top-level interface: this one
+    tags what it returns.  Recursion inside handlers goes through rec, not through here."""
+    def __call__(self, expr, *args, **kwargs):
+        return ("top", super().__call__(expr, *args, **kwargs))
+
+
+class C_hook_0(CallHookMixin, RenameMixin0, CachedIdentityMapper):
+    pass
+
+
+class P_hook(CallHookMixin, RenameMixin0, IdentityMapper):
     pass
 
 
@@ -285,11 +318,11 @@ ARITH = ["Variable", "Sum", "Product", "Quotient", "FloorDiv", "Remainder", "Pow
          "Comparison", "If", "Min", "Max", "CommonSubexpression", "LogicalAnd", "LogicalNot"]
 
 FAMS_BROAD = ["ident", "subst", "collect", "walk", "dep", "count", "combine", "plainopt",
-              "entry_subst"]
+              "entry_subst", "hook"]
 FAMS_ARITH = ["eval", "csemix_eval", "flop", "ident", "combine", "dep", "count", "collect",
               "csemix_dep", "csemix_diff", "entry_subst", "entry_eval"]
 REWRITABLE = {"ident", "combine", "collect", "walk", "subst", "count", "flop", "plainopt"}
-EXTRAS_FAMS = {"ident", "combine", "collect", "walk", "dep", "plainopt", "csemix_dep",
+EXTRAS_FAMS = {"ident", "combine", "collect", "walk", "dep", "plainopt", "csemix_dep", "hook",
                "entry_subst", "entry_eval"}
 
 
@@ -337,7 +370,7 @@ def _gen_extras(r, fam, variant):
     pos_ok = variant in ("0", "K")
     kw_ok = variant in ("0", "A")
     if pos_ok and r.random() < 0.6:
-        if fam in ("ident", "plainopt"):
+        if fam in ("ident", "plainopt", "hook"):
             if r.random() < 0.12:
                 # a positional extra that happens to look like a keyword item
                 args.append(["t", [["s", "tag"], ["s", r.choice(["p", "q"])]]])
@@ -522,8 +555,12 @@ def generate(seed, tier):
         elif fam == "subst":
             m = []
             for v in r.sample(["x", "y", "z", "xa"], r.randint(1, 3)):
+                # (values without wrappers: the substitution family has a handler that feeds
+                # one recursive call into another, and a wrapper that keeps substituting
+                # itself back in would never end)
                 m.append([v, r.choice([["n", "Variable", [["s", r.choice(["x", "y", "q"])]]],
-                                       ["r", r.choice(pool_names)], ["i", 3]])])
+                                       ["n", "Sum", [["t", [["n", "Variable", [["s", "q"]]],
+                                                            ["i", 1]]]]], ["i", 3]])])
             cfg["map"] = m
         insts.append({"inst": n, "family": fam, "opt": bits, "cfg": cfg,
                       "variant": pick_variant(r, fam, bits)})
@@ -553,7 +590,10 @@ def generate(seed, tier):
         fam = ins["family"]
         variant = ins["variant"]
         x = r.random()
-        if x < 0.12 and mode == "strict":
+        if x < 0.04 and mode == "strict" and fam in ("ident", "hook", "plainopt"):
+            # user literal nodes of two classes that compare equal across the classes
+            et = r.choice([["n", "IntLit", [["i", 7]]], ["n", "FloatLit", [["f", "7.0"]]]])
+        elif x < 0.12 and mode == "strict":
             # bare typed constants at top level (the key has a type(expr) component)
             et = g.const(r.choice(["i", "f", "b", "npi"]), 4 if r.random() < 0.7 else 1)
         elif x < 0.16 and mode == "strict":
@@ -693,7 +733,31 @@ def execute(scenario, open_sigs):
     class TagProduct(p.Product):
         mapper_method = "map_tagged"
 
-    B = spec.Builder({"SubVar": SubVar, "TagSum": TagSum, "TagProduct": TagProduct})
+    class _Lit(p.Expression):
+        """legacy nodes whose equality backend is overridden so that IntLit(7) == FloatLit(7.0)
+        (the user's choice); they are still two node types"""
+        init_arg_names = ("value",)
+
+        def __init__(self, value):
+            self.value = value
+
+        def __getinitargs__(self):
+            return (self.value,)
+
+        def is_equal(self, other):
+            return isinstance(other, _Lit) and self.value == other.value
+
+        def get_hash(self):
+            return hash(("lit", self.value))
+
+    class IntLit(_Lit):
+        mapper_method = "map_int_lit"
+
+    class FloatLit(_Lit):
+        mapper_method = "map_float_lit"
+
+    B = spec.Builder({"SubVar": SubVar, "TagSum": TagSum, "TagProduct": TagProduct,
+                      "IntLit": IntLit, "FloatLit": FloatLit})
     obs = HandlerObserver()
     events, known, probes, faults, states = [], [], {}, {}, set()
     insts = {}
